@@ -24,6 +24,9 @@
   proves that this is the table extracted from the current working tree.
 -/
 import TypedpyModel.Lemmas.Elab
+import TypedpyModel.Lemmas.ElabFlat
+import TypedpyModel.Sem.Deser
+import TypedpyModel.Sem.Schema
 namespace Typedpy.C13
 open Typedpy Typedpy.Elab
 
@@ -84,19 +87,21 @@ theorem sameMeaning_denote {s t : Sp} (h : SameMeaning s t) : denote s = denote 
   Elab.sameMeaning_denote h
 
 /-- Every supported spelling, at any nesting depth, elaborates to its documented meaning — both through
-    `FieldMeta.__getitem__` and through `get_typing_lib_info`. -/
+    `get_typing_lib_info` (as an annotation) and through `FieldMeta.__getitem__` (as an argument of a typedpy field;
+    there a Structure-first PEP 604 union `Owner | …` is excluded: open finding `pep604-structure-first-nested`). -/
 theorem elaborate_meaning (s : Sp) (h : supported tm s = true) :
-    elaborate tm s = .ok (denote s) ∧ elaborateAnn tm s = .ok (some (denote s)) := by
+    (itemOk s = true → elaborate tm s = .ok (denote s)) ∧ elaborateAnn tm s = .ok (some (denote s)) := by
   obtain ⟨o, hev, g⟩ := ev_good s h
-  exact ⟨by simp [elaborate, hev, getItem_of_gtli g.gt], by simp [elaborateAnn, hev, g.gt]⟩
+  exact ⟨fun hi => by simp [elaborate, hev, getItem_good g hi], by simp [elaborateAnn, hev, g.gt]⟩
 
 /-- `SameMeaning s₁ s₂ → elaborate tm s₁ = elaborate tm s₂` on the supported region. -/
 theorem elaborate_equiv {s₁ s₂ : Sp} (h : SameMeaning s₁ s₂) (h₁ : supported tm s₁ = true)
     (h₂ : supported tm s₂ = true) :
-    elaborate tm s₁ = elaborate tm s₂ ∧ elaborateAnn tm s₁ = elaborateAnn tm s₂ := by
-  rw [(elaborate_meaning s₁ h₁).1, (elaborate_meaning s₂ h₂).1, (elaborate_meaning s₁ h₁).2,
-    (elaborate_meaning s₂ h₂).2, sameMeaning_denote h]
-  exact ⟨rfl, rfl⟩
+    (itemOk s₁ = true → itemOk s₂ = true → elaborate tm s₁ = elaborate tm s₂)
+    ∧ elaborateAnn tm s₁ = elaborateAnn tm s₂ := by
+  refine ⟨fun i₁ i₂ => ?_, ?_⟩
+  · rw [(elaborate_meaning s₁ h₁).1 i₁, (elaborate_meaning s₂ h₂).1 i₂, sameMeaning_denote h]
+  · rw [(elaborate_meaning s₁ h₁).2, (elaborate_meaning s₂ h₂).2, sameMeaning_denote h]
 
 /-- Field level: the model of `StructMeta.__new__` on one declaration yields the documented field,
     required flag and default (or the documented rejection of an invalid default). -/
@@ -143,6 +148,50 @@ theorem same_behaviour (O : Oracles) {c₁ c₂ : ClassSp} (h : ClassSame c₁.f
     (h₁ : classSupported O tm c₁ = true) (h₂ : classSupported O tm c₂ = true)
     (kw : List (String × PyVal)) : classBehaviour O c₁ kw = classBehaviour O c₂ kw := by
   simp only [classBehaviour, elabClass_equiv O h h₁ h₂]
+
+/-! ### "behaviourally identical" as theorems: every operation of the other models is a function of the
+    class declaration, so equal declarations give equal results (one congruence theorem per operation) -/
+
+/-- any observation of the class statement's result -/
+def observe {α : Type} (O : Oracles) (c : ClassSp) (obs : FieldDecl → R α) : R α :=
+  bindE (elabClass O tm c) obs
+
+/-- Congruence, once and for all: equivalent class bodies agree on EVERY observation that is a function of the
+    class the statement creates (constructor, serializer, deserializer, schema export, …). -/
+theorem same_observation {α : Type} (O : Oracles) {c₁ c₂ : ClassSp} (h : ClassSame c₁.fields c₂.fields)
+    (h₁ : classSupported O tm c₁ = true) (h₂ : classSupported O tm c₂ = true) (obs : FieldDecl → R α) :
+    observe O c₁ obs = observe O c₂ obs := by
+  simp only [observe, elabClass_equiv O h h₁ h₂]
+
+/-- `Serializer(K(**kw)).serialize()` (`Sem/Serde.serialize` after `Sem/Validate.construct`) -/
+def classSerialize (O : Oracles) (c : ClassSp) (kw : List (String × PyVal)) : R PyVal :=
+  observe O c fun cls => bindE (construct O cls kw) fun x => serialize O cls x
+
+/-- `Deserializer(K).deserialize(doc)` (`Sem/Deser.deserialize`) -/
+def classDeserialize (O : Oracles) (opts : DeserOpts) (c : ClassSp) (doc : PyVal) : R PyVal :=
+  observe O c fun cls => deserialize O opts cls doc
+
+/-- `structure_to_schema(K)` (`Sem/Schema.toSchema`: schema and definitions) -/
+def classSchema (O : Oracles) (c : ClassSp) : R (PyVal × Sch.Defs) :=
+  observe O c fun cls => .ok (Sch.toSchema cls)
+
+/-- Equivalent class bodies serialize every constructed instance identically. -/
+theorem same_serialize (O : Oracles) {c₁ c₂ : ClassSp} (h : ClassSame c₁.fields c₂.fields)
+    (h₁ : classSupported O tm c₁ = true) (h₂ : classSupported O tm c₂ = true)
+    (kw : List (String × PyVal)) : classSerialize O c₁ kw = classSerialize O c₂ kw :=
+  same_observation O h h₁ h₂ _
+
+/-- Equivalent class bodies deserialize every document identically (same instance or same exception class). -/
+theorem same_deserialize (O : Oracles) (opts : DeserOpts) {c₁ c₂ : ClassSp} (h : ClassSame c₁.fields c₂.fields)
+    (h₁ : classSupported O tm c₁ = true) (h₂ : classSupported O tm c₂ = true)
+    (doc : PyVal) : classDeserialize O opts c₁ doc = classDeserialize O opts c₂ doc :=
+  same_observation O h h₁ h₂ _
+
+/-- Equivalent class bodies export the same JSON schema and definitions. -/
+theorem same_schema (O : Oracles) {c₁ c₂ : ClassSp} (h : ClassSame c₁.fields c₂.fields)
+    (h₁ : classSupported O tm c₁ = true) (h₂ : classSupported O tm c₂ = true) :
+    classSchema O c₁ = classSchema O c₂ :=
+  same_observation O h h₁ h₂ _
 
 /-! ### the full statement, and what is proved of it -/
 
@@ -434,6 +483,180 @@ theorem tuple_single_equiv :
     ∧ validate noRe d (.tuple [.str "a"]) = .error .typeErr :=
   ⟨SameMeaning.coll .pep585 .call .tuple (SameMeaning.scalar .builtin .cls .int),
    rfl, rfl, rfl, rfl, rfl, rfl, rfl, rfl, rfl⟩
+
+/-! ### typing's own rewriting of unions: flattening (and, below, de-duplication) -/
+
+/-- Directly nested `Union[…]` / `Optional[…]` (which `typing` flattens - documented: "unions of unions are flattened"):
+    a tree of them over supported, pairwise distinct leaves elaborates to the AnyOf of the FLATTENED documented
+    alternatives (`Spec/Meaning.flatAlts`), through the model's `mkUnion` (= typing's flatten + de-duplicate).
+    Structural induction over the tree (`Lemmas/ElabFlat`): no depth bound. -/
+theorem elaborate_flatten (s : Sp) (ht : isUnionTree s = true) (hl : leavesOk tm s = true)
+    (hd : allDistinct (flatObjs tm s) = true) :
+    elaborateAnn tm s = .ok (some (.anyOf (flatAlts s))) :=
+  elaborateAnn_flatten s ht hl hd
+
+/-- Hence any two bracketings / spellings with the same flattened alternatives are the same annotation:
+    `Union[Union[A, B], C]` ~ `Union[A, Union[B, C]]`, `Optional[Union[A, B]]` ~ `Union[A, Union[B, None]]` ~
+    `Union[A, Optional[B]]`, with each leaf in any of its own equivalent spellings. -/
+theorem flatten_equiv (s t : Sp) (hs : isUnionTree s = true) (ht : isUnionTree t = true)
+    (ls : leavesOk tm s = true) (lt : leavesOk tm t = true)
+    (ds : allDistinct (flatObjs tm s) = true) (dt : allDistinct (flatObjs tm t) = true)
+    (h : flatAlts s = flatAlts t) : elaborateAnn tm s = elaborateAnn tm t :=
+  Elab.flatten_equiv s t hs ht ls lt ds dt h
+
+/-- Field level: such an annotation declares the flattened AnyOf; the field is optional iff `None` is among the
+    flattened alternatives (in any position, at any nesting depth of the tree) or the name is in `_optional`. -/
+theorem elabField_flatten (O : Oracles) (future : Bool) (name : String) (inOpt : Bool) (s : Sp)
+    (ht : isUnionTree s = true) (hl : leavesOk tm s = true) (hd : allDistinct (flatObjs tm s) = true) :
+    elabField O tm future { name := name, mode := .ann, ty := s, inOptional := inOpt }
+      = .ok (.field (.anyOf (flatAlts s)) (!((flatAlts s).any isNoneF || inOpt)) none) := by
+  simp [elabField, evTop, ev_flatten s ht hl hd, annField, isFieldObj, isSclsObj, gtli_flatten s hl hd, afterGtli,
+    finishField, hasNoneOpt]
+
+/-- non-vacuity: `Union[Union[int, None], str]`, `Union[int, Union[None, str]]` and `Union[Optional[int], str]`
+    are union trees over distinct supported leaves with the same flattened alternatives [Integer, None, String]. -/
+theorem flatten_example :
+    let s₁ : Sp := .union (.union (.builtin .int) .noneLit) (.builtin .str)
+    let s₂ : Sp := .union (.builtin .int) (.union .noneLit fStr)
+    let s₃ : Sp := .union (.optional (.finst .int)) (.builtin .str)
+    isUnionTree s₁ = true ∧ leavesOk tm s₁ = true ∧ allDistinct (flatObjs tm s₁) = true
+    ∧ isUnionTree s₂ = true ∧ leavesOk tm s₂ = true ∧ allDistinct (flatObjs tm s₂) = true
+    ∧ leavesOk tm s₃ = true ∧ allDistinct (flatObjs tm s₃) = true
+    ∧ flatAlts s₁ = [.integer {}, .noneF, .string none none none]
+    ∧ flatAlts s₂ = flatAlts s₁ ∧ flatAlts s₃ = flatAlts s₁
+    ∧ elabField noRe tm false (annF s₁) = .ok (.field (.anyOf [.integer {}, .noneF, .string none none none]) false none)
+    ∧ elabField noRe tm true (annF s₂) = elabField noRe tm false (annF s₁)
+    ∧ elabField noRe tm true (annF s₃) = elabField noRe tm false (annF s₁) :=
+  ⟨rfl, rfl, rfl, rfl, rfl, rfl, rfl, rfl, rfl, rfl, rfl, rfl, rfl, rfl⟩
+
+/-- typing's de-duplication ("redundant arguments are skipped"): for a supported spelling `x` that is not a Field
+    INSTANCE and not itself a union, `Union[x, x]` IS `x` - the annotation elaborates to the single field, not to an
+    AnyOf (this is what separates it from `AnyOf[X, X]`: finding `typing-union-duplicate`). -/
+theorem union_duplicate_collapses (x : Sp) (hs : supported tm x = true) (hu : unionLike x = false)
+    (he : ∀ o, ev tm x = .ok o → objEq o o = true) :
+    elaborateAnn tm (.union x x) = elaborateAnn tm x := by
+  obtain ⟨o, hev, g⟩ := ev_good x hs
+  have hm := unionMembers_of_gtli g.gt (g.nu hu)
+  simp [elaborateAnn, ev, hev, hm, mkUnion, dedupObj, he o hev]
+
+/-! ### Structure classes as field types, two-element tuples -/
+
+/-- the Structure class `class Owner(Structure): name: str` -/
+def ownerD : FieldDecl :=
+  .struct { name := "Owner", required := ["name"], accepts := ["Owner"] } [("name", .string none none none)] []
+def owner : Sp := .scls ownerD 5
+
+/-- A Structure class is a field type in every position, in every spelling: `a: Owner` = `a = Owner`;
+    `list[Owner]` ~ `List[Owner]` ~ `Array[Owner]` ~ `Array(items=Owner)`; `Optional[Owner]` ~ `Owner | None` ~
+    `AnyOf[Owner, None]` + `_optional`; `Owner | int` ~ `Union[Owner, int]` ~ `AnyOf[Owner, Integer]`; `Integer | Owner`;
+    all in the proved region; the field is a reference to the class (accepts its instances only). -/
+theorem struct_field_equiv :
+    FieldSame (annF owner) { name := "a", mode := .assign, ty := owner }
+    ∧ fieldSupported noRe tm true (annF owner) = true
+    ∧ fieldSupported noRe tm false { name := "a", mode := .assign, ty := owner } = true
+    ∧ elabField noRe tm true (annF owner) = .ok (.field ownerD true none)
+    ∧ elabField noRe tm false { name := "a", mode := .assign, ty := owner } = .ok (.field ownerD true none)
+    ∧ SameMeaning (.pep585 .list owner) (.call .list owner)
+    ∧ fieldSupported noRe tm true (annF (.pep585 .list owner)) = true
+    ∧ fieldSupported noRe tm true (annF (.typingG .list owner)) = true
+    ∧ fieldSupported noRe tm false (annF (.call .list owner)) = true
+    ∧ elabField noRe tm true (annF (.pep585 .list owner)) = .ok (.field (.seqOf .list ownerD {}) true none)
+    ∧ elabField noRe tm false (annF (.call .list owner)) = .ok (.field (.seqOf .list ownerD {}) true none)
+    ∧ fieldSupported noRe tm true (annF (.optional owner)) = true
+    ∧ fieldSupported noRe tm true (annF (.pipe owner .noneLit)) = true
+    ∧ fieldSupported noRe tm false (annF (.anyOf owner .noneLit) .none true) = true
+    ∧ elabField noRe tm true (annF (.optional owner)) = .ok (.field (.anyOf [ownerD, .noneF]) false none)
+    ∧ elabField noRe tm true (annF (.pipe owner .noneLit)) = .ok (.field (.anyOf [ownerD, .noneF]) false none)
+    ∧ elabField noRe tm false (annF (.anyOf owner .noneLit) .none true) = .ok (.field (.anyOf [ownerD, .noneF]) false none)
+    ∧ fieldSupported noRe tm true (annF (.pipe owner (.builtin .int))) = true
+    ∧ elabField noRe tm true (annF (.pipe owner (.builtin .int))) = .ok (.field (.anyOf [ownerD, .integer {}]) true none)
+    ∧ elabField noRe tm true (annF (.union owner (.builtin .int))) = .ok (.field (.anyOf [ownerD, .integer {}]) true none)
+    ∧ elabField noRe tm true (annF (.pipe fInt owner)) = .ok (.field (.anyOf [.integer {}, ownerD]) true none)
+    ∧ validate noRe ownerD (.inst "Owner" [("name", .str "x")]) = .ok (.inst "Owner" [("name", .str "x")])
+    ∧ validate noRe ownerD (.dict [(.str "name", .str "x")]) = .error .typeErr :=
+  ⟨⟨rfl, SameMeaning.scls ownerD 5 5, rfl, rfl⟩, rfl, rfl, rfl, rfl,
+   SameMeaning.coll .pep585 .call .list (SameMeaning.scls ownerD 5 5),
+   rfl, rfl, rfl, rfl, rfl, rfl, rfl, rfl, rfl, rfl, rfl, rfl, rfl, rfl, rfl, rfl, rfl⟩
+
+/-- `tuple[int, str]` ~ `typing.Tuple[int, str]` ~ `Tuple[Integer, String]` ~ `Tuple(items=[Integer, String])`
+    (annotation or assignment): the documented tuple of exactly that shape; also with a Structure class member. -/
+theorem tuple_pair_equiv :
+    let d : FieldDecl := .tuplePos [.integer {}, .string none none none] false
+    SameMeaning (.tup585 (.builtin .int) (.builtin .str)) (.tupCall fInt fStr)
+    ∧ fieldSupported noRe tm true (annF (.tup585 (.builtin .int) (.builtin .str))) = true
+    ∧ fieldSupported noRe tm true (annF (.tupTyping (.builtin .int) (.builtin .str))) = true
+    ∧ fieldSupported noRe tm false { name := "a", mode := .assign, ty := .tupSub fInt fStr } = true
+    ∧ fieldSupported noRe tm false { name := "a", mode := .assign, ty := .tupCall fInt (.finst .str) } = true
+    ∧ elabField noRe tm true (annF (.tup585 (.builtin .int) (.builtin .str))) = .ok (.field d true none)
+    ∧ elabField noRe tm true (annF (.tupTyping (.builtin .int) (.builtin .str))) = .ok (.field d true none)
+    ∧ elabField noRe tm false { name := "a", mode := .assign, ty := .tupSub fInt fStr } = .ok (.field d true none)
+    ∧ elabField noRe tm false { name := "a", mode := .assign, ty := .tupCall fInt (.finst .str) } = .ok (.field d true none)
+    ∧ fieldSupported noRe tm true (annF (.tup585 (.builtin .int) owner)) = true
+    ∧ elabField noRe tm true (annF (.tup585 (.builtin .int) owner))
+        = .ok (.field (.tuplePos [.integer {}, ownerD] false) true none)
+    ∧ elabField noRe tm true (annF (.tupSub fInt owner))
+        = .ok (.field (.tuplePos [.integer {}, ownerD] false) true none)
+    ∧ validate noRe d (.tuple [.int 1, .str "a"]) = .ok (.tuple [.int 1, .str "a"])
+    ∧ validate noRe d (.tuple [.int 1]) = .error .valueErr
+    ∧ validate noRe d (.tuple [.int 1, .int 2]) = .error .typeErr :=
+  ⟨SameMeaning.tup .pep585 .call (SameMeaning.scalar .builtin .cls .int) (SameMeaning.scalar .builtin .cls .str),
+   rfl, rfl, rfl, rfl, rfl, rfl, rfl, rfl, rfl, rfl, rfl, rfl, rfl, rfl⟩
+
+/-- finding `definition-error:tuple-items-structure-class` — `Tuple.__init__` converts Field classes and instances
+    only: `a: Tuple(items=Owner)` and `a: Tuple(items=[Integer, Owner])` raise TypeError at class definition, the
+    equivalent `Tuple[Owner]`, `tuple[Owner]`, `Tuple[Integer, Owner]` declare the field (and `Array(items=Owner)` works). -/
+theorem counterexample_tuple_items_struct :
+    SameMeaning (.sub .tuple owner) (.call .tuple owner)
+    ∧ SameMeaning (.tupSub fInt owner) (.tupCall fInt owner)
+    ∧ documentedField (annF (.call .tuple owner)) = true ∧ documentedField (annF (.tupCall fInt owner)) = true
+    ∧ elabField noRe tm false (annF (.sub .tuple owner)) = .ok (.field (.tupleOf ownerD false) true none)
+    ∧ elabField noRe tm false (annF (.pep585 .tuple owner)) = .ok (.field (.tupleOf ownerD false) true none)
+    ∧ elabField noRe tm false (annF (.call .tuple owner)) = .error .typeErr
+    ∧ elabField noRe tm false (annF (.tupSub fInt owner)) = .ok (.field (.tuplePos [.integer {}, ownerD] false) true none)
+    ∧ elabField noRe tm false (annF (.tupCall fInt owner)) = .error .typeErr
+    ∧ elabField noRe tm false (annF (.call .list owner)) = .ok (.field (.seqOf .list ownerD {}) true none) :=
+  ⟨SameMeaning.coll .sub .call .tuple (SameMeaning.scls ownerD 5 5),
+   SameMeaning.tup .sub .call (SameMeaning.scalar .cls .cls .int) (SameMeaning.scls ownerD 5 5),
+   rfl, rfl, rfl, rfl, rfl, rfl, rfl, rfl⟩
+
+/-- finding `definition-error:pep604-structure-first-nested` — a PEP 604 union whose FIRST member is a Structure class,
+    used as an argument of a typedpy field (`Array[Owner | None]`, `AnyOf[Owner | int, String]`, `Map[String, Owner | None]`),
+    makes `FieldMeta.__getitem__` recurse forever (RecursionError at class definition); the same union as an annotation
+    (`a: Owner | None`), inside a builtin generic (`list[Owner | None]`) or written `Optional[Owner]` works. -/
+theorem counterexample_struct_first_nested :
+    SameMeaning (.sub .list (.pipe owner .noneLit)) (.sub .list (.optional owner))
+    ∧ documentedField (annF (.sub .list (.pipe owner .noneLit))) = true
+    ∧ elabField noRe tm false (annF (.sub .list (.pipe owner .noneLit))) = .error (.other "RecursionError")
+    ∧ elabField noRe tm false (annF (.anyOf (.pipe owner (.builtin .int)) fStr)) = .error (.other "RecursionError")
+    ∧ elabField noRe tm false (annF (.mapSub fStr (.pipe owner .noneLit))) = .error (.other "RecursionError")
+    ∧ elabField noRe tm false (annF (.sub .list (.optional owner)))
+        = .ok (.field (.seqOf .list (.anyOf [ownerD, .noneF]) {}) true none)
+    ∧ elabField noRe tm false (annF (.pep585 .list (.pipe owner .noneLit)))
+        = .ok (.field (.seqOf .list (.anyOf [ownerD, .noneF]) {}) true none)
+    ∧ elabField noRe tm false (annF (.pipe owner .noneLit)) = .ok (.field (.anyOf [ownerD, .noneF]) false none)
+    ∧ elabField noRe tm false (annF (.sub .list (.pipe .noneLit owner)))
+        = .ok (.field (.seqOf .list (.anyOf [.noneF, ownerD]) {}) true none) :=
+  ⟨SameMeaning.coll .sub .sub .list (SameMeaning.altOptional .pipe (SameMeaning.scls ownerD 5 5)),
+   rfl, rfl, rfl, rfl, rfl, rfl, rfl, rfl⟩
+
+/-! ### behaviour clause, concretely -/
+
+/-- `a: Optional[list[int]]` (future import) and `a = AnyOf[Array[Integer], None]` + `_optional`: both classes
+    are in the proved region and `ClassSame`; constructing with `a=[1, 2]` and serializing gives `{"a": [1, 2]}`
+    for both, deserializing `{"a": [1]}` gives the same instance, and a wrong element type is rejected by both. -/
+theorem behaviour_example :
+    let cA : ClassSp := { future := true, fields := [{ name := "a", mode := .ann, ty := .optional (.pep585 .list (.builtin .int)) }] }
+    let cB : ClassSp := { future := false, fields := [{ name := "a", mode := .assign, ty := .anyOf (.sub .list fInt) .noneLit, inOptional := true }] }
+    ClassSame cA.fields cB.fields ∧ classSupported noRe tm cA = true ∧ classSupported noRe tm cB = true
+    ∧ classSerialize noRe cA [("a", .list [.int 1, .int 2])] = .ok (.dict [(.str "a", .list [.int 1, .int 2])])
+    ∧ classSerialize noRe cB [("a", .list [.int 1, .int 2])] = .ok (.dict [(.str "a", .list [.int 1, .int 2])])
+    ∧ classDeserialize noRe {} cA (.dict [(.str "a", .list [.int 1])]) = .ok (.inst "K" [("a", .list [.int 1])])
+    ∧ classDeserialize noRe {} cB (.dict [(.str "a", .list [.int 1])]) = .ok (.inst "K" [("a", .list [.int 1])])
+    ∧ classBehaviour noRe cA [("a", .list [.str "x"])] = .error .valueErr
+    ∧ classBehaviour noRe cB [("a", .list [.str "x"])] = .error .valueErr :=
+  ⟨ClassSame.cons ⟨rfl, SameMeaning.optionalAlt .anyOf
+      (SameMeaning.coll .pep585 .sub .list (SameMeaning.scalar .builtin .cls .int)), rfl, rfl⟩ ClassSame.nil,
+   rfl, rfl, rfl, rfl, rfl, rfl, rfl, rfl⟩
 
 /-! ### non-vacuity -/
 
